@@ -77,6 +77,22 @@ def check(ctx, rep):
         rep.ob('moves.step-call', 'the move is executed by _draw_step(start, offset, plot, goback)', calls == ['self._draw_step(x0, y0, x1, y1, plot, goback)'], repr(calls), ctx.where(mv))
         sp = [c for st_ in mv.body for c in own_nodes(st_) if isinstance(c, ast.Call) and norm(c.func) == 'gmls.parse_number']
         rep.ob('moves.default-count', 'a move without a number moves by 1', len(sp) == 1 and [norm(k.value) for k in sp[0].keywords if k.arg == 'default'] == ['1'], '', ctx.where(mv))
+    # a leading minus applies to every operand form (literal, =variable;, =VARPTR$): the negation is a statement
+    # of the function body placed after all of them, or every branch multiplies by the sign itself
+    pn = ctx.fn('pcbasic/basic/mlparser.py:MLParser.parse_number')
+    srcs = [a for a in own_nodes(pn) if isinstance(a, ast.Assign) and norm(a.targets[0]) == 'step' and not isinstance(a.value, ast.UnaryOp)
+            and norm(a.value) != 'default']
+    negs = [st for st in pn.body if isinstance(st, ast.If) and norm(st.test) in ('sgn == -1', 'sgn < 0')
+            and [norm(x) for x in st.body] == ['step = -step']]
+    def top(st):
+        while st._parent is not pn:
+            st = st._parent
+        return st
+    for a in srcs:
+        ok = 'sgn' in [x.id for x in ast.walk(a.value) if isinstance(x, ast.Name)] or (len(negs) == 1 and pn.body.index(negs[0]) > pn.body.index(top(a)))
+        rep.ob('numbers.sign-applies-to-every-form', 'parse_number: the sign is applied to `%s`' % short(a.value, 50), ok,
+               'a minus sign before this operand form is ignored (e.g. DRAW "U-=A;" moves up instead of down)', ctx.where(a))
+    rep.floor('numbers.sign-applies-to-every-form', len(srcs), 3, 'operand forms')
     # flags
     assigns = [(norm(a.targets[0]), norm(a.value), a) for a in own_nodes(dr) if isinstance(a, ast.Assign) and norm(a.targets[0]) in ('plot', 'goback')]
     setb = [a for t, v, a in assigns if t == 'plot' and v == 'False']
@@ -164,6 +180,7 @@ def variants(ctx):
         return lambda tree: f(mu.find_def(tree, f_name))
 
     return [
+        Va('minus-ignored-before-variable', 'break', 'pcbasic/basic/mlparser.py', lambda tree: _sign_literal_only(mu.find_def(tree, 'MLParser.parse_number')), expect='numbers.sign'),
         Va('E-goes-down', 'break', G, in_fn('Graphics._draw', lambda fn: mu.replace_expr(fn, mu.text_is("c in (b'U', b'E', b'H')"), "c in (b'U', b'H')")), expect='moves.direction'),
         Va('L-and-R-swapped', 'break', G, in_fn('Graphics._draw', _swap_lr), expect='moves.direction'),
         Va('scale-over-4-rounded', 'break', G, in_fn('Graphics._draw_step', lambda fn: mu.replace_expr(fn, mu.text_is('int(math.trunc(scale * sx / 4.0))'), 'int(round(scale * sx / 4.0))')), expect='step.scale'),
@@ -200,3 +217,11 @@ def _ignore_unknown(fn):
             n.orelse = [ast.Pass()]
             return True
     return False
+
+
+def _sign_literal_only(fn):
+    neg = [st for st in fn.body if isinstance(st, ast.If) and norm(st.test) == 'sgn == -1']
+    if len(neg) != 1:
+        return False
+    fn.body.remove(neg[0])
+    return mu.replace_expr(fn, mu.text_is('self._parse_literal()'), 'sgn * self._parse_literal()')
